@@ -1007,21 +1007,28 @@ where
             lc
         })
         .collect();
-    sorted_lcs.sort_by(|a, b| {
-        if let Some(b_resume_lc) = &b.resume_lc {
-            if b_resume_lc.id == a.id {
-                // b is a resume of a so a must be earlier
-                return std::cmp::Ordering::Less;
+    // we sort by start_time but a resumed lifecycle must never be sorted before the lifecycle
+    // it resumes (its start_time is just an estimate and can be earlier). To get a total order
+    // (comparing only direct resume relations is not transitive) we sort by a key:
+    // the start_time but at least the one of the resumed lifecycle(s), then the depth in the
+    // resume chain and the id.
+    let by_id: std::collections::HashMap<LifecycleId, &Lifecycle> =
+        sorted_lcs.iter().map(|lc| (lc.id, *lc)).collect();
+    let sort_key = |lc: &Lifecycle| {
+        let mut key_time = lc.start_time;
+        let mut depth = 0u32;
+        let mut cur = lc;
+        while let Some(prev) = cur.resume_lc.as_ref().and_then(|r| by_id.get(&r.id)) {
+            if depth as usize >= by_id.len() {
+                break; // cannot happen (resume chains have no cycles) but dont loop endlessly
             }
+            key_time = std::cmp::max(key_time, prev.start_time);
+            depth += 1;
+            cur = prev;
         }
-        if let Some(a_resume_lc) = &a.resume_lc {
-            if a_resume_lc.id == b.id {
-                // a is a resume of b so b must be earlier
-                return std::cmp::Ordering::Greater;
-            }
-        }
-        a.start_time.cmp(&b.start_time)
-    });
+        (key_time, depth, lc.id)
+    };
+    sorted_lcs.sort_by_cached_key(|lc| sort_key(lc));
     sorted_lcs
 }
 
